@@ -84,13 +84,13 @@ LockCreate ==
     /\ Step
 
 \* every tile of the tree t of size n is in the mirror's storage: full tiles
-\* exactly; for a right-edge partial tile either that tile or a wider tile of
-\* the same index that extends it
+\* exactly; for a right-edge partial tile either that tile or the full tile
+\* that extends it
 \* the stored bytes g (named by fork and last leaf covered) are right for tree t
 GoodFor(o, g, t) == g.f = t.f \/ g.n <= ForkPoint(o)
 TileOk(o, ob, t, x) ==
     \/ (x \in DOMAIN ob /\ \E g \in ob[x] : GoodFor(o, g, t))
-    \/ (x.w < TW /\ \E y \in DOMAIN ob : y.k = x.k /\ y.l = x.l /\ y.n = x.n /\ y.w > x.w
+    \/ (x.w < TW /\ \E y \in DOMAIN ob : y.k = x.k /\ y.l = x.l /\ y.n = x.n /\ y.w = TW
                         /\ \E g \in ob[y] : GoodFor(o, g, t))
 MirrorTiles(n) == HashTiles(n) \cup DataTiles(n)
 MirrorServable(o, t, ob) == \A x \in MirrorTiles(t.n) : TileOk(o, ob, t, x)
